@@ -157,6 +157,9 @@ def run_shard(acc, prop, tier, seed, shard, nshards, **kw):
     try:
         n = 6 if tier == "quick" else 200
         for wi in range(n):
+            from .. import core as _core
+            if _core.skip_world(wi):
+                continue
             rng = sub_rng("n", seed, PROP, tier, shard, wi)
             rw = run_registry(acc, srv, (seed, PROP, tier, shard, wi), rng.choice([25, 40, 60, 90]))
         # canary: a record whose lookup is pointed at another pair must be flagged
